@@ -379,6 +379,8 @@ func scenarios(quick bool) []scenario {
 		{Kind: "sliced", N: 2, Mask: 0, Classes: two, Archive: true},
 		{Kind: "chain", N: 1, Classes: []string{"ready"}, Archive: true, LongLived: true},
 		{Kind: "single", N: 2, Mask: 0b10, Classes: []string{"ready"}, Pauses: 1, Delete: true, LongLived: true},
+		// stale0: the workload controller reports an explicit observedGeneration 0
+		{Kind: "single", N: 2, Mask: 0b10, Classes: []string{"ready", "stale0"}},
 	}
 	if !quick {
 		out = append(out,
@@ -443,9 +445,9 @@ func init() {
 		},
 		Subs: []*checks.Sub{{Name: "bfs", Shards: func(t string) int {
 			if t == "thorough" {
-				return 16
+				return 17
 			}
-			return 11
+			return 12
 		}, Run: run, Replay: replay, Parallel: true},
 			twin.Sub("C06", twinScenarios)},
 	})
